@@ -288,6 +288,14 @@ class CopyObject(_H5Scenario):
         with self.engine(cx) as X:
             setstate(cx, X, src)
             _add_children(cx, X, src, assoc, n)
+            if self.params.get("reopen_first"):
+                # the copy is taken in a later session: the source is loaded lazily from its file
+                suid, puid = src.uid, (parent.uid if (parent is not None and other is None) else None)
+                ws.close()
+                ws = Workspace(ws.h5file)
+                src = ws.get_entity(suid)[0]
+                if puid is not None:
+                    parent = ws.get_entity(puid)[0]
             before = _snapshot(src)
             kids_before = _children_snapshot(src)
             pgs_before = _pg_snapshot(src)
@@ -591,6 +599,8 @@ def scenarios(tier, seed):
                 if tier == "quick" and not ch and t != "other":
                     continue
                 S.append(CopyObject(cls=cls, target=t, children=ch))
+                if ch and (tier != "quick" or t == "other"):
+                    S.append(CopyObject(cls=cls, target=t, children=ch, reopen_first=True))
     for kind in ("float", "integer", "referenced"):
         for cross in (False, True):
             S.append(CopyData(kind=kind, cross=cross))
